@@ -68,6 +68,12 @@ def fullfact_levels(rng, tier):
         g = ops.FullFactorLevelsGenerator(_params(_box(rng, n)))
         g.init(values)
         yield {"call": lambda self: self.generate(), "args": {"self": g}, "extra": _X, "label": "values=%r" % (values,)}
+    # long sweeps: a factor with more levels than fit into a small integer type
+    for nlev in (130, 300):
+        values = [[float(i) for i in range(nlev)], [0.0, 1.0, 2.0]]
+        g = ops.FullFactorLevelsGenerator(_params(_box(rng, 2)))
+        g.init(values)
+        yield {"call": lambda self: self.generate(), "args": {"self": g}, "extra": _X, "label": "levels=%d x 3" % nlev}
 
 
 @scenario("artap.operators:PlackettBurmanGenerator.generate", bound="every supported factor count 1..23 (complete)")
